@@ -48,13 +48,7 @@ def model_requests(case, obs):
     return G.model_requests(case, obs, METHOD)
 
 
-def fault_reached(tc, to):
-    for s in to["steps"]:
-        if s[0] == "rail" and G.verdict_of(tc, s[1], s[2]) == "f":
-            return True
-        if s[0] == "act" and ((s[1] == "dialog_act" and tc.get("act_fault")) or (s[1] == "retrieve" and tc.get("retr_fault"))):
-            return True
-    return False
+fault_reached = G.fault_reached
 
 
 def nontrivial(case, obs):
@@ -109,6 +103,16 @@ def gen_cases(rng, tier):
                 c["turns"] = [G.clean_turn(rng, cfg, k + 1) for k in range(max(p1, p2) + 2)]
                 apply_fault(rng, cfg, c["turns"][p1], s1)
                 apply_fault(rng, cfg, c["turns"][p2], s2)
+                cases.append(c)
+    # stateless deployment (Colang 1.0 history rebuilt from the plain messages, no events cache): every site, turns 1 and 2
+    for cfg in G.all_cfgs(SHAPES[:2], carries=("fresh",)):
+        if cfg["ver"] != "1.0" or not G.fits(cfg["ver"], cfg["dialog"], len(cfg["in"]), len(cfg["out"])):
+            continue
+        for pos in range(2):
+            for site in sites(cfg):
+                c = dict(cfg)
+                c["turns"] = [G.clean_turn(rng, cfg, k + 1) for k in range(pos + 2)]
+                apply_fault(rng, cfg, c["turns"][pos], site)
                 cases.append(c)
     # faults mixed with rejections / rewrites (random), incl. triples
     for _ in range(60 if tier == "quick" else 2500):
@@ -177,4 +181,5 @@ def oracle(case, obs):
 
 
 def signature(case, obs, msg):
-    return G.region_signature(case, obs, msg, oracle_codes_stale=("poisoned-input", "poisoned-reject", "unchecked-text", "fault-llm"), oracle_codes_flag=("unchecked-text",))
+    return G.region_signature(case, obs, msg, oracle_codes_stale=("poisoned-input", "poisoned-reject", "unchecked-text", "fault-llm"), oracle_codes_flag=("unchecked-text",),
+                              oracle_codes_fresh=("fault-reply", "fault-leak", "fault-llm", "unchecked-text"))
